@@ -183,6 +183,7 @@ def scenario(sseed, res, direction=None, cfg=None):
         steps = 0
         limit = R.randint(20, 400)
         aborted = False
+        extreme = [0]
         while steps < limit and not aborted and (hold or len(stopped) < len(tun)):
             steps += 1
             w = R.choice(tun)
@@ -194,6 +195,13 @@ def scenario(sseed, res, direction=None, cfg=None):
                     if oc == "C" and w == slow and R.random() < 0.7:
                         # the straggler's late result is a good one: whoever was promoted in the meantime has to stand the comparison
                         val = -2 if o.objective.direction == "min" else 7
+                    key_ = mon.round_of.get(t.trial_id, (None, None))[:2]
+                    if oc == "C" and any((bu_, rq_ - 1) == key_ for (_c, _p, bu_, rq_) in mon.promos) and R.random() < 0.8:
+                        # adversarial scoring: somebody has already been promoted out of this trial's round - every later result of
+                        # that round beats everything seen so far (a promotion must have waited until that could no longer matter)
+                        extreme[0] += 1
+                        val = -(2 + extreme[0]) if o.objective.direction == "min" else 7 + extreme[0]
+                        tags["late-result-beats-promoted"] += 1
                     lines.append(dict(suite="hyperband", op="update", id=int(t.trial_id), value=val))
                     expect.append("ok")
                     quiet(o.update_trial, t.trial_id, {"score": float("nan") if val is None else float(val)}, step=0)
